@@ -60,3 +60,31 @@ MUTATIONS += [
     ("send-no-queue-direct", ["C12"], P, "        self._send_queue.append(data)\n        # It is crucial",
      "        if self._sendlock.acquire(False):\n            try:\n                self._channel.send(data)\n            finally:\n                self._sendlock.release()\n            return\n        self._send_queue.append(data)\n        # It is crucial"),
 ]
+
+A = "rpyc/core/async_.py"
+MUTATIONS += [
+    # ---- C14 / C13: hand-off between receiver and waiters
+    ("serve-no-notify", ["C14", "C13"], P, "            with self._recv_event:\n                self._recv_event.notify_all()\n", "            pass\n"),
+    ("serve-notify-one", ["C14", "C13"], P, "self._recv_event.notify_all()", "self._recv_event.notify()"),
+    ("serve-wait-ignores-lock-release", ["C14", "C13"], P, "return wait_for_lock and self._recv_event.wait(timeout.timeleft())",
+     "return wait_for_lock and self._recv_event.wait(timeout.timeleft()) and self._recv_event.wait(timeout.timeleft())"),
+    ("wait-fixed-1s-serve", ["C14", "C15"], A, "            self._conn.serve(self._ttl)", "            self._conn.serve(1)\n            self._conn.serve(0.5)"),
+]
+
+MUTATIONS += [
+    # ---- C13 / C08: correlation of replies
+    ("seq-counter-not-atomic", ["C13"], P, "        return next(self._seqcounter)",
+     "        n = getattr(self, '_n', 0)\n        self._n = n + 1\n        return n"),
+    ("callback-get-not-pop", ["C13", "C08"], P, "_callback = self._request_callbacks.pop(seq, None)",
+     "_callback = self._request_callbacks.get(seq, None)"),
+    ("asyncresult-ready-before-obj", ["C13"], A, "        self._is_exc = is_exc\n        self._obj = obj\n        self._is_ready = True",
+     "        self._is_ready = True\n        self._is_exc = is_exc\n        self._obj = obj"),
+    ("recvlock-released-after-dispatch", ["C13", "C01"], P,
+     "        finally:\n            self._recvlock.release()\n            with self._recv_event:\n                self._recv_event.notify_all()\n        self._dispatch(data)\n        return True",
+     "        except BaseException:\n            self._recvlock.release()\n            with self._recv_event:\n                self._recv_event.notify_all()\n            raise\n        try:\n            self._dispatch(data)\n        finally:\n            self._recvlock.release()\n            with self._recv_event:\n                self._recv_event.notify_all()\n        return True"),
+    ("cond-wait-no-timeout", ["C13", "C15"], P, "return wait_for_lock and self._recv_event.wait(timeout.timeleft())",
+     "return wait_for_lock and self._recv_event.wait()"),
+    ("callback-registered-after-send", ["C13"], P,
+     "        self._request_callbacks[seq] = callback\n        try:\n            self._send(consts.MSG_REQUEST, seq, (handler, self._box(args)))",
+     "        try:\n            self._send(consts.MSG_REQUEST, seq, (handler, self._box(args)))\n            self._request_callbacks[seq] = callback"),
+]
